@@ -3,6 +3,8 @@ import YncaVerif.Model.Conv
 import YncaVerif.Model.Subunit
 import YncaVerif.Model.Framing
 import YncaVerif.Model.Accept
+import YncaVerif.Model.Server
+import YncaVerif.Gen.ServerTables
 import YncaVerif.Gen.Enums
 import YncaVerif.Gen.Functions
 import YncaVerif.Gen.Consts
@@ -75,6 +77,8 @@ def stepLine (mode : String) (line : String) : String :=
 
 structure DState where
   objs : Array SubSt := #[]
+  store : Srv.Store := []
+  ingestCmd : Option Srv.Cmd := none
   /-- scripted callbacks: (object index, callback id, operations performed when invoked) -/
   scripts : List (Nat × Nat × List CbOp) := []
   buf : List UInt8 := []
@@ -133,6 +137,23 @@ def withObj (d : DState) (idx : String) (f : SubSt → SubSt × String) : DState
   | none => (d, "bad-op")
 
 def parseArgs (toks : List String) : Option (List PyVal) := toks.mapM parsePyVal
+
+def serverTables : Srv.Tables := ⟨Gen.multiTable, Gen.relatedTable, Gen.inputMap, Gen.zones⟩
+
+def unspecMark : String := "\x01UNSPEC"
+
+/-- Python `str(float(stored) + halves * 0.5)` for plain decimals with at most one fraction digit and small magnitude;
+    `none` when `float()` certainly raises; a marker when the model is silent -/
+def volArithPlain : Srv.VolArith := fun stored halves =>
+  match parseDecimal stored.toList with
+  | some (m, fr) =>
+    if fr ≤ 1 && m.natAbs < 1000000 && halves.natAbs < 1000000 then
+      let tenths : Int := (if fr = 0 then m * 10 else m) + halves * 5
+      let a := tenths.natAbs
+      let txt := (if tenths < 0 then "-" else "") ++ toString (a / 10) ++ "." ++ toString (a % 10)
+      some txt
+    else some unspecMark
+  | none => if clearlyNotNumeric stored then none else some unspecMark
 
 def stepState (mode : String) (d : DState) (line : String) : DState × String :=
   let toks := (line.splitOn " ").filter (· ≠ "")
@@ -196,6 +217,27 @@ def stepState (mode : String) (d : DState) (line : String) : DState × String :=
     match findCls py with
     | some c => (d, " ".intercalate ((initSends c).map showSent))
     | none => (d, "no-class")
+  | "server", ["reset"] => ({ d with store := [], ingestCmd := none }, "ok")
+  | "server", ["ingest", h] =>
+    match Hex.strOfHex h with
+    | some l => let r := Srv.ingestLine (d.store, d.ingestCmd) l; ({ d with store := r.1, ingestCmd := r.2 }, "ok")
+    | none => (d, "bad-op")
+  | "server", ["add", s, f, v] =>
+    match Hex.strOfHex s, Hex.strOfHex f, Hex.strOfHex v with
+    | some s, some f, some v => ({ d with store := Srv.addData d.store s f v }, "ok")
+    | _, _, _ => (d, "bad-op")
+  | "server", ["dump"] =>
+    let parts := d.store.flatMap (fun e => e.2.map (fun kv => s!"{Hex.hexOfStr e.1}.{Hex.hexOfStr kv.1}={Hex.hexOfStr kv.2}"))
+    (d, if parts.isEmpty then "-" else " ".intercalate parts)
+  | "server", ["cmd", h] =>
+    match Hex.strOfHex h with
+    | some l =>
+      let (st', out) := Srv.handleCommand serverTables volArithPlain d.store l
+      let unspec := out.any (fun o => (o.splitOn unspecMark).length > 1) ||
+        st'.any (fun e => e.2.any (fun kv => (kv.2.splitOn unspecMark).length > 1))
+      if unspec then (d, "U")
+      else ({ d with store := st' }, if out.isEmpty then "-" else " ".intercalate (out.map Hex.hexOfStr))
+    | none => (d, "bad-op")
   -- framing: `chunk <hexbytes>` feeds one read; prints the parsed message of every completed line
   | "frame", ["chunk", h] =>
     match Hex.bytesOfHex h with
